@@ -36,6 +36,18 @@ def cases(ctx):
             if rng.random() < 0.1:
                 ht = rng.choice([0, 4, 0x41, 0x80, 0x84, 0x91, 0xc1, 0xff])
                 yield Case(f'dig_v0 {line} {i} {toks_str(code)} {amt} {ht}', 'm', nontrivial=True, tag='v0-undefined', domain=False)
+    for _ in range(ctx.n(50, 2500)):
+        tx = G.gen_tx(rng, names, kind=rng.choice(['legacy', 'segwit']), max_in=4, max_out=4, min_out=1, big=False)
+        muts = G.random_mutations(rng, tx, names)
+        line0 = tx_to_line(tx)
+        G.apply_mutations(tx, muts)
+        line1 = tx_to_line(tx)
+        i = rng.randrange(len(tx.inputs)); ht = rng.choice(TYPES)
+        code = code_script(rng, names, ctx); amt = rng.randrange(0, 21 * 10 ** 14)
+        rest = f'{i} {toks_str(code)} {amt} {ht}'
+        ctx.count('after-mutation')
+        yield Case(f'dig_v0_after {line0} {G.muts_line(muts)} {rest}', 'ms', nontrivial=True, tag='after-mutation',
+                   model=lambda ans, l=line1, r=rest: (f'm:dig_v0 {l} {r}', ans), spec=lambda ans, l=line1, r=rest: (f's:dig_v0 {l} {r}', ans))
     tx = G.gen_tx(rng, names, kind='segwit', max_in=2, max_out=2, big=False)
     yield Case(f'dig_v0 {tx_to_line(tx)} 7 {toks_str(["OP_1"])} 5 1', 'm', nontrivial=True, tag='bad-index', domain=False)
     yield Case(f'dig_v0 {tx_to_line(tx)} 0 {toks_str(["OP_1"])} {2 ** 63} 1', 'm', nontrivial=True, tag='bad-amount', domain=False)
@@ -44,7 +56,10 @@ def cases(ctx):
 def impl(op, a, ctx):
     from bitcoinutils.script import Script
     F = Fields(a)
-    tx = line_to_tx(F); i = F.nat(); code = F.toks(); amt = F.int(); ht = F.nat(); F.done()
+    tx = line_to_tx(F)
+    if op == 'dig_v0_after':
+        muts = G.parse_muts(F); G.exercise(tx); G.apply_mutations(tx, muts)
+    i = F.nat(); code = F.toks(); amt = F.int(); ht = F.nat(); F.done()
     return 'ok ' + hx(tx.get_transaction_segwit_digest(i, Script(code), amt, ht))
 
 
